@@ -3,3 +3,5 @@ import DafRel.Props.C11
 #print axioms DafRel.Props.C11.sort_is_applied_on_top
 #print axioms DafRel.Props.C11.binary_refuses_unsliced_sort
 #print axioms DafRel.Props.C11.materialize_refuses_unsliced_sort
+#print axioms DafRel.Props.C11.emitted_select_honours_sort_and_slice
+#print axioms DafRel.Props.C11.sorted_slice_executes_in_order
